@@ -301,6 +301,8 @@ def minkowski_rules(db, chk, cfg, rule="MINK"):
                         cond, then, els = if_parts(c)
                     else:
                         cond, then, els = kids(c)[0], kids(c)[1], kids(c)[2]
+                    if any(y.get("kind") == "CallExpr" and db.callee(y)[0] == f.name for y in walk(then)):
+                        continue         # a re-entry with other arguments (MINK.roles), not the sum/difference selection
                     try:
                         t = Interp(db, {isSum: val}).ev(cond)
                     except Unsupported:
